@@ -789,11 +789,19 @@ def self_check_mode(cls):
     iss = which_defines(cls, "is_self_safe")
     if gus is Node and iss is Node:
         return dict(mode="standard", walks=True)
-    src = textwrap.dedent(inspect.getsource(gus.get_unsafe_set))
-    body = src_of(gus.get_unsafe_set).body
+    try:
+        src = textwrap.dedent(inspect.getsource(gus.get_unsafe_set))
+        body = src_of(gus.get_unsafe_set).body
+    except Exception as ex:
+        return dict(mode="unknown", walks=False, src=repr(ex)[:200])
     body = [b for b in body if not (isinstance(b, ast.Expr) and isinstance(b.value, ast.Constant))]
     if len(body) == 1 and isinstance(body[0], ast.Return) and ast.unparse(body[0].value) == "set()":
         return dict(mode="always", walks=False)
+    if len(body) == 2 and isinstance(body[0], ast.If) and ast.unparse(body[0].test) == "self.is_self_safe()" \
+            and ast.unparse(body[0].body[0]) == "return set()" and not body[0].orelse \
+            and ast.unparse(body[1]) == "return {f'{self.module_name}.{self.class_name}'}" and iss is Node:
+        # only the node's own name is checked (by the standard check); children are plain data
+        return dict(mode="standard", walks=False)
     if "_get_function_name()" in src and "in self.trusted" in src and "return {" in src:
         fn = which_defines(cls, "_get_function_name")
         fsrc = ast.unparse(src_of(fn._get_function_name).body[-1].value)
@@ -802,6 +810,41 @@ def self_check_mode(cls):
         if fsrc == "self.children['content']['module_path'] + '.' + self.children['content']['function']":
             return dict(mode="fnContent", walks=False, m=["content", "module_path"], c=["content", "function"])
     return dict(mode="unknown", walks=False, src=src[:200])
+
+
+def view_facts(cls):
+    """what visualize needs to know about a node class"""
+    from skops.io._audit import Node
+    from skops.io._general import ListNode
+    from skops.io._visualize import SKIPPED_TYPES
+
+    fmt_owner = which_defines(cls, "format")
+    if fmt_owner is Node:
+        fmt = "name"
+    else:
+        src = ast.unparse(src_of(fmt_owner.format).body[-1])
+        if "json-type(" in src:
+            fmt = "json"
+        elif "bytearray(" in src:
+            fmt = "bytearray"
+        elif "byte_repr" in src or "arepr.repr" in ast.unparse(src_of(fmt_owner.format)):
+            fmt = "bytes"
+        else:
+            fmt = "unknown"
+    iss = which_defines(cls, "is_self_safe")
+    if iss is Node:
+        self_safe = "check"
+    else:
+        body = [b for b in src_of(iss.is_self_safe).body if not (isinstance(b, ast.Expr) and isinstance(b.value, ast.Constant))]
+        self_safe = "always" if len(body) == 1 and ast.unparse(body[0]) == "return True" else "unknown"
+    isf = which_defines(cls, "is_safe")
+    if isf is Node:
+        is_safe = "audit"
+    else:
+        body = [b for b in src_of(isf.is_safe).body if not (isinstance(b, ast.Expr) and isinstance(b.value, ast.Constant))]
+        is_safe = "always" if len(body) == 1 and ast.unparse(body[0]) == "return True" else "unknown"
+    return dict(format=fmt, self_safe=self_safe, is_safe=is_safe, skipped=issubclass(cls, SKIPPED_TYPES),
+                is_list_node=issubclass(cls, ListNode))
 
 
 def collect():
@@ -822,6 +865,7 @@ def collect():
         except Exception as ex:
             k["uses"] = [dict(u="unknown", src="translator error: " + repr(ex)[:200])]
         k["self_check"] = self_check_mode(cls)
+        k["view"] = view_facts(cls)
         kinds.append(k)
     return dict(protocol=PROTOCOL, kinds=kinds)
 
